@@ -520,7 +520,24 @@ def install_hash(eng):
     def h_write(e, a, ins):
         h, p = a
         if not isinstance(p.len, int):
-            raise Unsupported('hash.Write of symbolic length')
+            # a big.Int encoding of data-dependent length fed to the hash: late case split on the byte length
+            # (W, W-1, W-2, 1, 0 explored; the other lengths are cut - the same stated bound as in sym_copy)
+            tag = e.heap[p.obj][1] if p.obj is not None else None
+            if not (isinstance(tag, tuple) and tag[0] == 'bigbytes'):
+                raise Unsupported('hash.Write of symbolic length')
+            W_, Lb = tag[2], tag[3]
+            Ls = [L_ for L_ in (W_, W_ - 1, W_ - 2, 1, 0) if 0 <= L_ <= W_]
+            L_ = Ls[e.choose(len(Ls), 'byteslen-late')]
+            e.assume(Lb == z3.BitVecVal(L_, 64))
+            if not e.feasible(z3.BoolVal(True)):
+                raise PathAbort()
+            arr = e._nav(e.heap[p.obj][0], p.path)
+            off = concrete(z3.simplify(z3.substitute(tobv(p.off, 64), (Lb, z3.BitVecVal(L_, 64)))))
+            n = concrete(z3.simplify(z3.substitute(tobv(p.len, 64), (Lb, z3.BitVecVal(L_, 64)))))
+            if off is None or n is None:
+                raise Unsupported('hash.Write of symbolic length')
+            h.cells.extend(arr[off:off + n])
+            return (n, None)
         h.cells.extend(e.slice_list(p))
         return (p.len, None)
 
